@@ -54,6 +54,19 @@ func checkC08(P *Prog, r *Result) {
 			default:
 				if ci := callOf(in); ci != nil && ci.static != nil && (isPkgFunc(ci.static, "sync") || isPkgFunc(ci.static, "sync/atomic")) {
 					if !isSyncPoolMethod(ci, "Get") && !isSyncPoolMethod(ci, "Put") {
+						// an atomic update of a package-level variable that execution code never reads (a counter), or
+						// an atomic load of one that nothing ever stores to (a hook nobody installs), synchronises nothing
+						// that an execution depends on
+						if isPkgFunc(ci.static, "sync/atomic") && len(ci.args()) > 0 {
+							if g := rootGlobalOf(ci.args()[0]); g != nil {
+								if atomicWriteOnly(ci) && P.writeOnlyInExecution(g) {
+									return
+								}
+								if strings.HasPrefix(ci.static.Name(), "Load") && P.neverWritten(g) {
+									return
+								}
+							}
+						}
 						bad = append(bad, "sync call "+ci.static.String()+" at "+P.ipos(in))
 					}
 				}
